@@ -1035,9 +1035,17 @@ def signature(kind, detail, origin, spec) -> str:
     a failed recompile and the direction of a parse difference depend on the sample and are left out."""
     feats = features(spec)
     if kind == 'rails-raises':
-        feats = sorted({('param:nonstr' if f in NONSTR else f) for f in feats} - {'param:plain'})
+        feats = {('param:nonstr' if f in NONSTR else f) for f in feats}
+        if 'param:nonstr' in feats:      # str parameters next to the non-str one are irrelevant to the TypeError
+            feats = {f for f in feats if not f.startswith(('param:', 'kwparam:')) or f == 'param:nonstr'}
+        feats = sorted(feats)
     if kind in ('recompile-fails', 'parse-differs', 'not-fixpoint', 'pretty-raises', 'pretty2-raises'):
         detail = ''
+    if 'empty' in feats and kind in ('recompile-fails', 'not-fixpoint', 'rules-differ') and \
+            not any(f.split(':')[0] in RISKY_FEATS or f in RISKY_FEATS for f in feats):
+        # `{}` at the end of a rule swallows the next rule header (D8k): what is left of the swallowed rule after
+        # shrinking (a name, an include target) is incidental
+        feats = ['empty']
     return f'{kind}[{detail}]:' + ','.join(feats)
 
 
@@ -1130,6 +1138,11 @@ def atoms(spec):
                 add(['node', 'include'], ms)
             else:
                 add(['node', sh], mini(sh))
+                if sh == ('empty',):
+                    # a rule that ENDS in {} followed by another rule (the lexeme eats the blank line)
+                    ms = mini(sh)
+                    rs = ms['rules']
+                    add(['node', 'empty-then-rule'], dict(ms, rules=[rs[0], rs[1], dict(rs[1], name='r2', exp=A)]))
     return out
 
 
